@@ -204,3 +204,31 @@ class SleepyFilter:
         r = random.Random(self.seed).random()
         time.sleep(r * self.ms / 1000.0)
         return interactions
+
+# --------------------------------------------------------------------------------------------- C19 part E
+class CacheUser:
+    """filter run inside CobaMultiprocessor workers: every item reads a cached entry through CobaContext.cacher (which
+    CobaMultiprocessor replaces by a ConcurrentCacher shared between the workers)"""
+    def __init__(self, log, nkeys): self.log, self.nkeys = log, nkeys
+    @property
+    def params(self): return {}
+    def filter(self, item):
+        import coba.context.cachers as cc
+        from coba.context import CobaContext
+        class Fast:
+            @staticmethod
+            def sleep(s): time.sleep(.003)
+        cc.time = Fast
+        key = f"k{item % self.nkeys}"
+        want = [f"{key}:{i}:" + "x" * 30 for i in range(5)]
+        def getter():
+            _append(self.log, f"G {key} {os.getpid()}")
+            for line in want:
+                time.sleep(.15)                 # slow enough for the other workers (spawned ~0.1 s apart) to arrive meanwhile
+                yield line
+        try:
+            with CobaContext.cacher.get_set(key, getter) as f:
+                lines = [l.rstrip("\n") for l in f]
+            yield ("ok" if lines == want else f"bad:{len(lines)}", key, os.getpid())
+        except Exception as e:
+            yield (f"raise:{type(e).__name__}", key, os.getpid())
